@@ -134,7 +134,12 @@ func (h *Hub) UnregisterRemoteSKI(ski string) {
 
 	h.hubReader.ServicePairingDetailUpdate(ski, service.ConnectionStateDetail())
 
-	if existingC := h.connectionForSKI(ski); existingC != nil {
+	// wait for a connection that is just being set up, it is either refused or registered afterwards
+	h.muxConSetup.Lock()
+	existingC := h.connectionForSKI(ski)
+	h.muxConSetup.Unlock()
+
+	if existingC != nil {
 		existingC.CloseConnection(true, 4500, "User close")
 	}
 }
